@@ -19,7 +19,9 @@ use super::{
 use crate::array::DataChunk;
 use crate::catalog::find_sort_key_id;
 use crate::storage::secondary::statistics::create_statistics_global_aggregator;
-use crate::storage::{ScanOptions, StorageColumnRef, StorageResult, Transaction};
+use crate::storage::{
+    ScanOptions, StorageColumnRef, StorageResult, TracedStorageError, Transaction,
+};
 use crate::types::DataValue;
 
 /// A transaction running on `SecondaryStorage`.
@@ -68,6 +70,13 @@ impl SecondaryTransaction {
         read_only: bool,
         update: bool,
     ) -> StorageResult<Self> {
+        // An update txn takes the table's deletion lock *before* pinning: its snapshot is then
+        // the one no compaction of this table can change until the txn ends.
+        let delete_lock = if update {
+            Some(table.lock_for_deletion().await)
+        } else {
+            None
+        };
         // pin a snapshot at version manager
         let pin_version = table.version.pin();
         // after the pin, before (for update txns) awaiting the table lock
@@ -95,11 +104,7 @@ impl SecondaryTransaction {
             table: table.clone(),
             version: table.version.clone(),
             snapshot: pin_version.snapshot.clone(),
-            delete_lock: if update {
-                Some(table.lock_for_deletion().await)
-            } else {
-                None
-            },
+            delete_lock,
             to_be_committed_rowsets: vec![],
             read_only,
             total_size: 0,
@@ -137,6 +142,17 @@ impl SecondaryTransaction {
     }
 
     async fn commit_inner(mut self) -> StorageResult<()> {
+        // The row handlers to delete were produced by a scan in its own (earlier) read txn. A
+        // handler of a RowSet that a compaction has replaced since then would become a delete
+        // vector nobody reads: the DELETE would be acknowledged without deleting anything.
+        // Fail instead (the snapshot was pinned under the deletion lock, so it is current).
+        let live_rowsets = self.snapshot.get_rowsets_of(self.table.table_id());
+        for delete in &self.delete_buffer {
+            if !live_rowsets.is_some_and(|s| s.contains(&delete.rowset_id())) {
+                return Err(TracedStorageError::not_found("rowset", delete.rowset_id()));
+            }
+        }
+
         self.flush_rowset().await?;
 
         // flush deletes to disk
